@@ -223,6 +223,78 @@ func parserInputs(o *propOpts, each func(e *entry, s string, origin string)) {
 			}
 		}
 	}
+	// … and the same substitutions in the MINIMAL sentence of every production of G (no context de-duplication: the minimal sentence
+	// is where a clause stands alone — `GRANT SELECT(a) ON TABLE t TO ROLE r` with TABLE turned into VIEW, seed C02h — while the
+	// golden inputs combine it with siblings that keep the generalised dispatch from firing)
+	{
+		words := parserWords()
+		isWord := map[string]bool{}
+		for _, w := range words {
+			isWord[strings.ToUpper(w)] = true
+		}
+		seenProd := map[string]bool{}
+		for _, st := range gSentences(o.tier, o.seed) {
+			if strings.HasPrefix(st.prod, "random/") || seenProd[st.prod] {
+				continue
+			}
+			seenProd[st.prod] = true
+			toks, ok := tokenSpans(st.text)
+			if !ok {
+				continue
+			}
+			e := entryByName(st.entry)
+			for i := 0; i+1 < len(toks); i++ {
+				t := toks[i]
+				up := strings.ToUpper(t.Raw)
+				if t.Kind != token.TokenIdent || !isWord[up] {
+					continue
+				}
+				for _, w := range words {
+					if strings.ToUpper(w) == up {
+						continue
+					}
+					edits++
+					if o.tier != "thorough" && edits%4 != int(o.seed%4) {
+						continue
+					}
+					each(e, st.text[:t.Pos]+strings.ToUpper(w)+st.text[t.End:], "edit-pseudokw-G")
+				}
+			}
+		}
+	}
+	// systematic INTEGER-SPELLING substitutions (round 3, seed C03h): every integer literal of the golden inputs, at one position of every
+	// distinct (previous token, next token kind) context, replaced by the unusual spellings the lexer accepts as <int> (leading zeros
+	// with 8 / 9, hexadecimal in both cases, values beyond int64 / uint64) — code that converts the text of a literal meets them here
+	{
+		intCtx := map[string]bool{}
+		for _, cf := range files {
+			if cf.Bad {
+				continue
+			}
+			toks, ok := tokenSpans(cf.Text)
+			if !ok {
+				continue
+			}
+			e := entryByName(entryForDir(cf.Dir))
+			for i := 1; i+1 < len(toks); i++ {
+				t := toks[i]
+				if t.Kind != token.TokenInt {
+					continue
+				}
+				key := strings.ToUpper(toks[i-1].Raw) + "\x00" + string(toks[i+1].Kind)
+				if toks[i-1].Kind == token.TokenIdent && !gIsKeywordLike(toks[i-1].Raw) {
+					key = "<ident>\x00" + string(toks[i+1].Kind)
+				}
+				if intCtx[key] {
+					continue
+				}
+				intCtx[key] = true
+				for _, v := range []string{"08", "0190", "007", "00", "0x1F", "0XaB", "0x0", "9223372036854775807", "9223372036854775808", "18446744073709551616", "99999999999999999999999999"} {
+					each(e, cf.Text[:t.Pos]+v+cf.Text[t.End:], "edit-intlit")
+				}
+			}
+		}
+	}
 	// systematic QUOTED-word substitutions (the round-trip and losslessness predicates only: they are about what SQL() prints): an
 	// identifier replaced by a back-quoted word that parser.go compares identifiers with (INSERT, OPTIONS, INTERLEAVE, VALUE, type
 	// names, ...) at one position of every distinct (statement head, previous token, next token kind) context of the golden inputs and of a
